@@ -1,8 +1,10 @@
 pub mod bfs;
 pub mod common;
 pub mod rtok;
+pub mod rtree;
 pub mod tokh;
 pub mod c01;
+pub mod c02;
 pub mod c03;
 pub mod c04;
 pub mod c07;
@@ -25,6 +27,7 @@ use common::*;
 pub fn run(ctx: &Ctx) -> ! {
     match ctx.prop.as_str() {
         "C01" => c01::main(ctx, false),
+        "C02" => c02::main(ctx),
         "C03" => c03::main(ctx),
         "C08" => c03::main_c08(ctx),
         "C04" => e2::main(ctx, e2::Prop::C04),
@@ -50,6 +53,7 @@ pub fn replay(ctx: &Ctx, v: &serde_json::Value, witness: &str) {
     let check = v["check"].as_str().unwrap_or(&ctx.prop).to_string();
     match check.as_str() {
         "C01" => c01::replay(ctx, v, false),
+        "C02" => e2::replay(ctx, e2::Prop::C02, v),
         "C03" | "C08" => c03::replay(ctx, v),
         "C04" => e2::replay(ctx, e2::Prop::C04, v),
         "C05" => e2::replay(ctx, e2::Prop::C05, v),
